@@ -264,6 +264,7 @@ func c15RegistryCase(c *Ctx, k int) {
 		name := c15Names[k]
 		c.SetCase("registry independence of %s", name)
 		c15Independence(c, name)
+		c15SameInstanceSequence(c, name)
 	case k < len(c15Names)+len(foreignNames)+60:
 		j := k - len(c15Names)
 		var name string
@@ -460,4 +461,82 @@ func c15GateBeforeCompute(c *Ctx) {
 	if tr.Outcome.Kind == mon.Error && !sawValidateErr {
 		c.Count("gate-model:rejected-before-validate", 1) // e.g. Init refused first: fine
 	}
+}
+
+// c15SameInstanceSequence: the verdict of the gate must not depend on what the
+// same operator instance validated before: a sequence of lists (descending and
+// ascending lengths, mixed types) is pushed through ONE instance and every
+// outcome is compared with the outcome a fresh instance gives for that list.
+func c15SameInstanceSequence(c *Ctx, name string) {
+	ar := onnxArity[name]
+	max := ar[1]
+	if max < 0 {
+		max = 5
+	}
+	shared, err := opset13.GetOperator(name)
+	if err != nil {
+		return
+	}
+	lens := []int{max, max + 1, ar[0], 0, max, 1, max - 1, 2, ar[0]}
+	for step, n := range lens {
+		if n < 0 {
+			continue
+		}
+		build := func() []tensor.Tensor {
+			in := make([]tensor.Tensor, n)
+			probe, _ := opset13.GetOperator(name)
+			cons := probe.GetInputTypeConstraints()
+			for i := range in {
+				d := tensor.Float32
+				if ar[1] >= 0 && i < len(cons) && len(cons[i]) > 0 {
+					d = cons[i][(step+i)%len(cons[i])]
+				}
+				rd, _ := mon.RefDtype(d)
+				in[i] = mon.ToTensor(ref.New(rd, 2))
+			}
+			return in
+		}
+		type verdict struct {
+			err    bool
+			length int
+			nils   string
+		}
+		judge := func(op ops.Operator, in []tensor.Tensor) (v verdict, panicked string) {
+			o := mon.Capture(nil, func() ([]tensor.Tensor, error) {
+				out, err := op.ValidateInputs(in)
+				v.err = err != nil
+				if err == nil {
+					v.length = len(out)
+					for i, t := range out {
+						switch {
+						case t == nil:
+							v.nils += "n"
+						case i < len(in) && t == in[i]:
+							v.nils += "="
+						default:
+							v.nils += "?"
+						}
+					}
+				}
+				return nil, nil
+			})
+			if o.Kind == mon.Panic {
+				panicked = o.Describe()
+			}
+			return v, panicked
+		}
+		fresh, _ := opset13.GetOperator(name)
+		want, p1 := judge(fresh, build())
+		got, p2 := judge(shared, build())
+		c.Eval(2)
+		if p1 != "" || p2 != "" {
+			c.Violation("gate:"+name+":panic", "gate panicked in a sequence of calls: %s %s", p1, p2)
+			return
+		}
+		if want != got {
+			c.Violation("gate:"+name+":verdict-depends-on-earlier-calls", "list of %d inputs (step %d of the sequence %v): the instance used before gives %+v, a fresh instance gives %+v", n, step, lens, got, want)
+			return
+		}
+	}
+	c.Nontrivial("same-instance-sequence|" + name)
 }
